@@ -579,6 +579,24 @@ def run_names(ctx, stream, jobs):
             cases[i] = shrink_case(cases[i], _names_differ)
             ctx.fail_input("results names differ from the declarative reading of the final parse", cases[i], model[i], impl[i],
                            theorem="PP.Names.C05_view_refines / C05_as_dict_refines", how="harness.props.c05.replay")
+        # a difference in a memoizing mode: the real code against itself — the same grammar and input without memoization
+        # (results names must report what the named element matched in every mode; the model is not consulted here)
+        memo = [i for i in diffs if cases[i]["mode"][0] != "none" and i not in cand[:2]]
+        memo.sort(key=lambda i: (len(cases[i]["prog"]), len(cases[i]["input"])))
+        found = 0
+        for i in memo[:40]:
+            c = cases[i]
+            r0 = eval_names(dict(prog=c["prog"], root=c["root"], inputs=[c["input"]], modes=[("none",)]))
+            recs = r0.get("records") or []
+            if not recs or recs[0][2] in ("hang", impl[i]):
+                continue
+            ctx.fail_input(f"tokens / results names under {c['mode'][0]} memoization differ from the unmemoized parse of the same "
+                           "grammar and input", c, recs[0][2], impl[i],
+                           theorem="PP.Names.C05_view_refines (the view is a function of the final parse, not of the memo)",
+                           how="harness.props.c05.replay")
+            found += 1
+            if found >= 2:
+                break
     return diffs
 
 
